@@ -233,6 +233,13 @@ func Record(check string, nontrivial bool, id uint64, classes ...string) {
 	}
 }
 
+// Class adds n to a histogram label of a check without counting an evaluation (advisory counters).
+func Class(check, label string, n int64) {
+	mu.Lock()
+	defer mu.Unlock()
+	get(check).Classes[label] += n
+}
+
 // Sample offers a case for the evidence file's sample list (first few and then sparse ones are kept).
 func Sample(check string, v interface{}) {
 	mu.Lock()
